@@ -41,7 +41,7 @@ UtmpOut(i) == [rows |-> [k \in {j \in 1..Len(i.recs) : i.recs[j].type = "USER"} 
 Devs == {"/dev/sda1", "none", "tmpfs", "/dev/my disk", "pool/data"}
 \* "/mnt/bslash" stands for a directory whose name holds a backslash followed by three octal digits
 \* (back\040slash): the kernel prints the backslash itself as \134 and the reader decodes ONCE
-Dirs == {"/", "/mnt/a b", "/mnt/tab", "/mnt/bslash"}
+Dirs == {"/", "/mnt/a b", "/mnt/tab", "/mnt/bslash", "/mnt/latin1"}
 FsTypes == {"ext4", "tmpfs", "zfs", "proc"}
 NoDev == {"tmpfs", "zfs", "proc"}                 \* flagged nodev in /proc/filesystems
 DiskBacked == (FsTypes \ NoDev) \cup {"zfs"}      \* nodev is ignored except for zfs
